@@ -2,6 +2,7 @@ CONSTANTS L = 4 EMIT = TRUE
 SPECIFICATION Spec
 INVARIANT RoundTrips
 INVARIANT NormIdempotent
+INVARIANT HexDecAgreesWithHex
 INVARIANT EmitText
 INVARIANT EmitRest
 INVARIANT EmitRest2
